@@ -342,9 +342,31 @@ func deepBombRepo(r *rng) ([]gObj, []int64) {
 	return objs, times
 }
 
+// "subtree split": a directory Z with many entries is the ROOT tree of the newest commit (so it is finished
+// and cited before anything names it) and, in an older commit on another branch, the LAST subdirectory of a
+// root that has other subdirectories before it: every entry reported to the path resolver must carry its
+// own object id (seeded C08y reported the last entry's id for all of them)
+func subtreeSplitRepo(r *rng) ([]gObj, []int64) {
+	objs := []gObj{{kind: 'b', size: uint64(30 + r.n(200))}, {kind: 'b', size: uint64(300 + r.n(2000))}}
+	var zs []gEntry
+	for i := 0; i < 8+r.n(8); i++ {
+		zs = append(zs, gEntry{0o100644, []byte(fmt.Sprintf("f%02d", i)), i % 2})
+	}
+	objs = append(objs, gObj{kind: 't', entries: zs})                                   // 2 = Z
+	objs = append(objs, gObj{kind: 't', entries: []gEntry{{0o100644, []byte("g"), 0}}}) // 3 = A
+	objs = append(objs, gObj{kind: 't', entries: []gEntry{{0o40000, []byte("a"), 3}, {0o100644, []byte("m.txt"), 0}, {0o40000, []byte("z"), 2}}}) // 4 = old root
+	objs = append(objs, gObj{kind: 'c', tree: 4, pad: r.n(40)})                         // 5 = old commit
+	objs = append(objs, gObj{kind: 'c', tree: 2, pad: r.n(40)})                         // 6 = split commit (newest)
+	times := []int64{0, 0, 0, 0, 0, 1500000000, 1600000000}
+	return objs, times
+}
+
 func genE2ERepo(r *rng, tier string) ([]gObj, []int64) {
 	if r.coin(1, 40) {
 		return deepBombRepo(r)
+	}
+	if r.coin(1, 40) {
+		return subtreeSplitRepo(r)
 	}
 	var objs []gObj
 	maxN := 18
@@ -365,6 +387,11 @@ func genE2ERepo(r *rng, tier string) ([]gObj, []int64) {
 				name := e2eNames[r.n(len(e2eNames))]
 				if r.coin(1, 10) {
 					name = strings.Repeat("n", 100+r.n(150))
+				}
+				if r.coin(1, 80) {
+					// a name longer than 8 KiB: `rev-list --objects` prints "<oid> <path>" lines of any length
+					// (a line reader with a fixed buffer mis-splits them: seeded C01y)
+					name = strings.Repeat("L", 8200+r.n(6000))
 				}
 				if used[name] {
 					continue
@@ -405,6 +432,9 @@ func genE2ERepo(r *rng, tier string) ([]gObj, []int64) {
 				}
 			}
 			c := gObj{kind: 'c', tree: trees[r.n(len(trees))], parents: ps, pad: r.n(300)}
+			if r.coin(1, 60) {
+				c.pad = 1<<20 + r.n(1<<20) // a commit message of more than 1 MiB: the commit's size is its full length (seeded C02y)
+			}
 			genExtra(r, &c, commits, trees)
 			objs = append(objs, c)
 		default:
